@@ -111,7 +111,7 @@ TNext ==
     /\ l' = l + 1
     /\ LET e == TraceLog[l] IN
        IF e.k = "reset"
-       THEN /\ M' = [Init0 EXCEPT !.store = [n \in Names |-> [u \in Urls |-> IF e.pre /\ u # "mem" THEN [NoStore EXCEPT !.dir = TRUE] ELSE NoStore]]]
+       THEN /\ M' = [Init0 EXCEPT !.store = [n \in Names |-> [u \in Urls |-> IF e.pre /\ u \notin MemUrls THEN [NoStore EXCEPT !.dir = TRUE] ELSE NoStore]]]
             /\ nfail' = nfail /\ lag' = Lag0
        ELSE Step(e)
 
